@@ -19,6 +19,7 @@ CONSTANTS
   Weak_ReplacementHashUnchecked = FALSE
   Weak_PromotedWitnessStays = FALSE
   Weak_PartialTraceOnBenignError = FALSE
+  Weak_LaggingWitnessEqualTimeBenign = FALSE
   Weak_DivergentHeaderExaminedOncePerRun = FALSE
 INIT Init
 NEXT Next
